@@ -21,12 +21,17 @@ type FuncResult struct {
 	Warnings   []string
 	Paths      int
 	CallsiteHits map[string]int
+	SafetySkipped int
 }
 
 // runTop executes the function once (probe or final) and returns the executor.
 func (V *Verifier) runTop(fn *ssa.Function, key string, fs *FuncSpec, cands map[string][]*Candidate, mods map[string]*modSet, probe bool, lockMode bool) (X *Exec, err error) {
 	E := V.E
 	X = NewExec(E)
+	X.Unroll = V.unroll
+	if fs != nil && fs.Opts["safety"] == "off" {
+		X.SafetyOff = true
+	}
 	X.TopFn, X.TopKey, X.TopSpec = fn, key, fs
 	X.probe = probe
 	X.LockMode = lockMode
@@ -185,6 +190,40 @@ type Verifier struct {
 	Solver *SolverPool
 	Quick  bool
 	Replay map[string]*ReplaySpec
+	unroll int
+}
+
+// UnrolledCounterexamples re-runs a function with loops unrolled (no invariants): obligations that come back
+// sat there have models of the entry state, i.e. inputs that can be replayed.
+func (V *Verifier) UnrolledCounterexamples(key string, lockMode bool, k int) []*Obligation {
+	V.unroll = k
+	defer func() { V.unroll = 0 }()
+	fn := V.E.P.Funcs[key]
+	if fn == nil {
+		return nil
+	}
+	fs := V.E.Specs.Funcs[key]
+	X, err := V.runTop(fn, key, fs, map[string][]*Candidate{}, map[string]*modSet{}, false, lockMode)
+	if err != nil {
+		return nil
+	}
+	res := &FuncResult{Key: key, Obls: X.Obls}
+	V.attachReplayTerms(X, key, res)
+	nameObligations(res.Obls)
+	var real []*Obligation
+	for _, o := range res.Obls {
+		if !o.WantSat {
+			real = append(real, o)
+		}
+	}
+	V.Solver.Discharge(V.E.TS, real, 8, true)
+	var out []*Obligation
+	for _, o := range real {
+		if o.Status == "failed" || (o.Status == "unknown" && o.Candidate) {
+			out = append(out, o)
+		}
+	}
+	return out
 }
 
 // VerifyFunc: Houdini over the auto-candidates, then the final pass and discharge of all obligations.
@@ -244,34 +283,8 @@ func (V *Verifier) VerifyFunc(key string, lockMode bool) *FuncResult {
 		return res
 	}
 	res.Obls = X.Obls
-	if rs := V.Replay[key]; rs != nil && X.TopFrame != nil {
-		// terms whose model values describe the failing entry state
-		var names []string
-		for n := range rs.Values {
-			names = append(names, n)
-		}
-		sort.Strings(names)
-		var terms []*Term
-		var okNames []string
-		for _, n := range names {
-			t := X.evalEntryExpr(rs.Values[n])
-			if t != nil {
-				terms = append(terms, t)
-				okNames = append(okNames, n)
-			}
-		}
-		var prefer []*Term
-		for _, p := range rs.Prefer {
-			if t := X.evalEntryExpr(p); t != nil && t.Sort == SBool {
-				prefer = append(prefer, t)
-			}
-		}
-		for _, o := range res.Obls {
-			if !o.WantSat {
-				o.Vals, o.ValNames, o.Prefer = terms, okNames, prefer
-			}
-		}
-	}
+	res.SafetySkipped = X.SafetySkipped
+	V.attachReplayTerms(X, key, res)
 	res.Trusted, res.Uncontr, res.Inlined, res.Spawns = X.UsedTrusted, X.Uncontracted, X.Inlined, X.Spawns
 	res.CallsiteHits = map[string]int{}
 	if fs != nil {
@@ -413,4 +426,35 @@ func (X *Exec) evalEntryExpr(src string) (t *Term) {
 		sc.Vars[k] = v
 	}
 	return sc.eval(e).T
+}
+
+func (V *Verifier) attachReplayTerms(X *Exec, key string, res *FuncResult) {
+	if rs := V.Replay[key]; rs != nil && X.TopFrame != nil {
+		// terms whose model values describe the failing entry state
+		var names []string
+		for n := range rs.Values {
+			names = append(names, n)
+		}
+		sort.Strings(names)
+		var terms []*Term
+		var okNames []string
+		for _, n := range names {
+			t := X.evalEntryExpr(rs.Values[n])
+			if t != nil {
+				terms = append(terms, t)
+				okNames = append(okNames, n)
+			}
+		}
+		var prefer []*Term
+		for _, p := range rs.Prefer {
+			if t := X.evalEntryExpr(p); t != nil && t.Sort == SBool {
+				prefer = append(prefer, t)
+			}
+		}
+		for _, o := range res.Obls {
+			if !o.WantSat {
+				o.Vals, o.ValNames, o.Prefer = terms, okNames, prefer
+			}
+		}
+	}
 }
